@@ -88,6 +88,7 @@ type lexer struct {
 	aliases   []*alias
 	stack     []int
 	arithExpr bool
+	arithBase int
 	paren     int
 	heredoc   heredoc
 	word      ast.Word
@@ -1036,10 +1037,11 @@ func (l *lexer) scanOp(r rune) (op int) {
 	case '(':
 		op = '('
 		l.paren++
-		if l.paren == 1 {
+		if !l.arithExpr {
 			if r, err := l.read(); err == nil {
 				if r == '(' {
 					op = LAE
+					l.arithBase = l.paren
 					l.paren++
 					l.arithExpr = true
 				} else {
@@ -1050,7 +1052,7 @@ func (l *lexer) scanOp(r rune) (op int) {
 	case ')':
 		op = ')'
 		l.paren--
-		if l.arithExpr && l.paren == 1 {
+		if l.arithExpr && l.paren == l.arithBase {
 			if r, err := l.read(); err == nil {
 				if r == ')' {
 					op = RAE
